@@ -50,7 +50,8 @@ func (c15) Info() core.Info {
 		Title: "Parsing follows the documented precedence; printed form re-parses identically",
 		Level: "exploration",
 		Rule: "all well-typed expression trees with <= 3 (thorough: 4) binary operators over every operator (| or & and = != ^= ~= > >= < <= in between + - * /), unary !, calls and [n] chains on typed leaves; each tree is rendered with minimal parentheses (documented precedence table, left associativity), fully parenthesised, with one redundant pair around every sub-tree in turn, and with lower / UPPER / Capitalised keywords and word operators. " +
-			"Oracle: the parsed AST (exported node fields) equals the generating tree for every rendering; Expression.String() of the parsed expression re-parses to the same tree; the filter text shown by Explain() re-parses to the tree of the filter the scan node executes. Non-trivial: the minimal rendering needs fewer parentheses than the full one. Distinct: the query text.",
+			"Oracle: the parsed AST (exported node fields) equals the generating tree for every rendering; Expression.String() of the parsed expression re-parses to the same tree; the filter text shown by Explain() re-parses to the tree of the filter the scan node executes. Non-trivial: the minimal rendering needs fewer parentheses than the full one. Distinct: the query text." +
+			" Also: IN over a list-valued expression (x in split(value, ','), n in list(1, 2)) as a Boolean tree at every position.",
 		Assumptions: []string{"only well-typed trees can be observed (the checker runs inside Parse); the generator avoids the two shapes the engine refuses for reasons outside this property (a `!` operand of a comparison, the same field on both sides of a comparison), so every generated tree must be accepted and a rejection is a violation", "literals contain no quote characters (the language has no escape)"},
 	}
 }
